@@ -145,6 +145,11 @@ fn battery() -> Vec<Q> {
         q("matcher-key-state", r#"FIND(?c.id) WHERE { ?c CONCEPT {state: "active"} }"#),
         q("matcher-key-state", r#"FIND(?c.id) WHERE { ?c CONCEPT {state: "archived"} }"#),
         q("concept-by-id", r#"FIND(?c) WHERE { ?c CONCEPT {id: "C-2"} }"#),
+        // ids the seed does not hold: the first Concept / tuple a later
+        // statement creates (create-c, widget; extend-rel, assert-idle) — at
+        // every earlier point they name nothing
+        q("concept-by-id", r#"FIND(?c) WHERE { ?c CONCEPT {id: "C-6"} }"#),
+        q("tuple-by-id", r#"FIND(?p) WHERE { ?p PROPOSITION (id: "P-9") }"#),
         q("id-with-indexed-key", r#"FIND(?c.id) WHERE { ?c CONCEPT {id: "C-3", state: "tombstoned"} }"#),
         q("id-with-indexed-key", r#"FIND(?c.id, ?c.name) WHERE { ?c CONCEPT {id: "C-1", name: "Ann"} }"#),
         // tuple patterns
